@@ -15,6 +15,11 @@
 (*   Alias(n, m)          n = m                                            *)
 (*   StructRef(n, m)      n = m.cffi_tensor        (keeps only the struct) *)
 (*   Read(n)              n.to_dok() / Tensor(n).to_dok()                  *)
+(*   Iter(n, m)           n = m.items()   (Tensor(m).items() for a struct: *)
+(*                        the iterator is created on a TEMPORARY Tensor)   *)
+(*   Consume(n)           list(n) for an iterator n: must yield the        *)
+(*                        content of the tensor it was created on, however *)
+(*                        many names of that tensor were deleted meanwhile *)
 (*   Pickle(n, m)         n = pickle.loads(pickle.dumps(m))                *)
 (*   Del(n)               del n                                            *)
 (*   Collect              gc.collect()                                     *)
@@ -42,7 +47,8 @@ None == [k |-> "none", t |-> 0]
 \* "reordered" = a sparse output produced through TensorMethod(Problem(...)) whose formats do not list the target first
 Kinds == {"sparse", "dense", "scalar", "empty", "reordered"}
 
-Reachable(t) == \E n \in Names : bind[n].t = t /\ bind[n].k \in {"tensor", "struct"}
+Reachable(t) == \E n \in Names : bind[n].t = t /\ bind[n].k \in {"tensor", "struct", "iter"}
+Held(t) == \E n \in Names : bind[n].t = t /\ bind[n].k \in {"tensor", "struct"}
 Garbage == {t \in 1..Len(made) : made[t].kernel /\ ~Reachable(t) /\ t \notin freed}
 Bound(n) == bind[n].k # "none"
 
@@ -65,7 +71,7 @@ EvaluateWith(n, m) ==
   /\ Quiet /\ bind[m].k = "tensor"
   /\ NewTensor(n, made[bind[m].t].kind, TRUE) /\ Log("evaluate_with", n, m, made[bind[m].t].kind) /\ UNCHANGED freed
 
-Alias(n, m) == /\ Quiet /\ n # m /\ Bound(m)
+Alias(n, m) == /\ Quiet /\ n # m /\ bind[m].k \in {"tensor", "struct"}
                /\ bind' = [bind EXCEPT ![n] = bind[m]]
                /\ Log("alias", n, m, "") /\ UNCHANGED <<made, freed, nfree>>
 
@@ -73,8 +79,16 @@ StructRef(n, m) == /\ Quiet /\ bind[m].k = "tensor"
                    /\ bind' = [bind EXCEPT ![n] = [k |-> "struct", t |-> bind[m].t]]
                    /\ Log("struct_ref", n, m, "") /\ UNCHANGED <<made, freed, nfree>>
 
-Read(n) == /\ Quiet /\ Bound(n)
+Read(n) == /\ Quiet /\ bind[n].k \in {"tensor", "struct"}
            /\ Log("read", n, n, "") /\ UNCHANGED <<bind, made, freed, nfree>>
+
+Iter(n, m) == /\ Quiet /\ n # m /\ bind[m].k \in {"tensor", "struct"}
+              /\ bind' = [bind EXCEPT ![n] = [k |-> "iter", t |-> bind[m].t]]
+              /\ Log("iter", n, m, "") /\ UNCHANGED <<made, freed, nfree>>
+
+Consume(n) == /\ Quiet /\ bind[n].k = "iter"
+              /\ bind' = [bind EXCEPT ![n] = None]
+              /\ Log("consume", n, n, "") /\ UNCHANGED <<made, freed, nfree>>
 
 Pickle(n, m) == /\ Quiet /\ bind[m].k = "tensor"
                 /\ NewTensor(n, made[bind[m].t].kind, FALSE) /\ Log("pickle", n, m, "") /\ UNCHANGED freed
@@ -92,8 +106,8 @@ Release(t) == /\ t \in Garbage
               /\ UNCHANGED <<bind, made, hist>>
 
 User == \/ \E n \in Names : \E kd \in Kinds : Evaluate(n, kd)
-        \/ \E n, m \in Names : EvaluateWith(n, m) \/ Alias(n, m) \/ StructRef(n, m) \/ Pickle(n, m)
-        \/ \E n \in Names : Read(n) \/ Del(n)
+        \/ \E n, m \in Names : EvaluateWith(n, m) \/ Alias(n, m) \/ StructRef(n, m) \/ Pickle(n, m) \/ Iter(n, m)
+        \/ \E n \in Names : Read(n) \/ Del(n) \/ Consume(n)
         \/ Collect
 Next == User \/ \E t \in 1..Len(made) : Release(t)
 Spec == Init /\ [][Next]_vars
@@ -113,15 +127,21 @@ BindAfter(h, k) ==   \* binding after the first k actions; tensor ids are assign
               [b |-> [p.b EXCEPT ![a.n] = [k |-> "tensor", t |-> p.c + 1]], c |-> p.c + 1]
          [] a.act = "alias" -> [b |-> [p.b EXCEPT ![a.n] = p.b[a.m]], c |-> p.c]
          [] a.act = "struct_ref" -> [b |-> [p.b EXCEPT ![a.n] = [k |-> "struct", t |-> p.b[a.m].t]], c |-> p.c]
-         [] a.act = "del" -> [b |-> [p.b EXCEPT ![a.n] = None], c |-> p.c]
+         [] a.act = "iter" -> [b |-> [p.b EXCEPT ![a.n] = [k |-> "iter", t |-> p.b[a.m].t]], c |-> p.c]
+         [] a.act \in {"del", "consume"} -> [b |-> [p.b EXCEPT ![a.n] = None], c |-> p.c]
          [] OTHER -> p
 FreedAfter(h, k) == LET p == BindAfter(h, k) IN
                     {t \in 1..p.c : made[t].kernel /\ ~\E n \in Names : p.b[n].t = t /\ p.b[n].k # "none"}
+\* tensors referenced only by iterators in flight: the arrays may or may not have been released
+MaybeFreedAfter(h, k) == LET p == BindAfter(h, k) IN
+                         {t \in 1..p.c : /\ made[t].kernel
+                                         /\ \E n \in Names : p.b[n].t = t /\ p.b[n].k = "iter"
+                                         /\ ~\E n \in Names : p.b[n].t = t /\ p.b[n].k \in {"tensor", "struct"}}
 Declarative == Garbage = {} => freed = FreedAfter(hist, Len(hist))
 
 Done == Garbage = {} /\ Len(hist) = MaxLen
 Line == [hist |-> [k \in 1..Len(hist) |-> [act |-> hist[k].act, n |-> hist[k].n, m |-> hist[k].m, kind |-> hist[k].kind,
-                                            freed |-> SetToSeq(FreedAfter(hist, k))]],
+                                            freed |-> SetToSeq(FreedAfter(hist, k)), maybe |-> SetToSeq(MaybeFreedAfter(hist, k))]],
          kernel |-> [t \in 1..Len(made) |-> made[t].kernel]]
 Emit == ~Done \/ PrintT("@@" \o ToJson(Line))
 =============================================================================
